@@ -546,7 +546,7 @@ def process_fn(fi):
     ms = model_run(CTX["model"], fn, cs) if CTX["have_model"] else [None] * len(cs)
     # every cell predicted to end in a Laufzeitfehler costs one fork of the driver: keep a bounded number per
     # argument shape (more of them in the thorough tier); the same for cells only the model speaks about
-    cap = 2 if quick else 30
+    cap = 2 if quick else 8
     seen = {}
     keep = []
     for c, sp, mo in zip(cs, sps, ms):
@@ -620,9 +620,13 @@ def main():
         "the specification oracle (checks/c17_spec.py) is my reading of the German doc comments; where a comment is silent the case is only compared with the model",
         "driver programs decode their arguments with built-ins only and reach the executable through the command line (UTF-8 argv, Text -> Zahl cast of the runtime)",
     ]
-    ck.coq()
+    # the Coq build + audit of Props/C17.v (about a minute, mostly Print Assumptions) runs beside the harness
+    import threading
+    coq_thread = threading.Thread(target=ck.coq)
+    coq_thread.start()
     ok, lg = b.ensure_native()
     if not ok:
+        coq_thread.join()
         ck.violation("build", "kddp/runtime do not build from the current tree", dict(log=lg[-3000:]), no_input=True)
         ck.finish()
     for fn in S.FNS:
@@ -661,6 +665,7 @@ def main():
     if not os.path.exists(shim):
         p = subprocess.run(["gcc", "-O1", "-c", shim_src, "-o", shim + ".tmp%d" % os.getpid()], capture_output=True, text=True)
         if p.returncode != 0:
+            coq_thread.join()
             ck.broken_obligation("harness/c/c17shim.c does not compile", p.stderr)
             ck.finish()
         os.replace(shim + ".tmp%d" % os.getpid(), shim)
@@ -739,6 +744,7 @@ def main():
         model_mismatch.extend(r["mismatch"])
         best.update(r["best"])
     model_mismatch = model_mismatch[:20]
+    coq_thread.join()
     # report order: one key per function first (vlib prints the first ten), then the remaining ones
     rank = {}
     ordered = []
